@@ -246,6 +246,13 @@ func (s *Session) handleNodeConnected(host *HostInfo) {
 		s.logger.Printf("gocql: Session.handleNodeConnected: %s:%d\n", host.ConnectAddress(), host.Port())
 	}
 
+	if s.ring.getHost(host.HostID()) != host {
+		// the host was removed from the ring (or replaced by a new entry) while its pool
+		// was connecting: the connection that came up belongs to a pool that is closed, and
+		// telling the policy that the host is up would put it back into its host list
+		return
+	}
+
 	host.setState(NodeUp)
 
 	if !s.cfg.filterHost(host) {
